@@ -53,7 +53,8 @@ def gen_case(rng, reserved):
         marks.append(c)
         return "%s %s ?" % (ref, rng.choice(["=", ">", "<", "<>", ">=", "<="]))
 
-    kind = rng.choice(["select", "select", "star", "star", "join", "derived", "chain", "insert", "update", "delete"])
+    kind = rng.choice(["select", "select", "star", "star", "joinstar", "join", "derived", "chain", "insert", "update", "delete", "setop"])
+    cols_expected = None
     t = rng.choice(tabs)
     cols = s.tables[t]
     if kind == "select":
@@ -74,7 +75,33 @@ def gen_case(rng, reserved):
             w = " WHERE " + cmp_("", t)
             text += w
             star += w
-    elif kind in ("join", "derived", "chain"):
+    elif kind == "setop" and len(tabs) > 1:
+        # a set operation with two to four operands: the result row is named and typed after the FIRST operand
+        ops = [t] + [rng.choice(tabs) for _ in range(rng.randint(1, 3))]
+        k_ = rng.randint(1, 2)
+        arms = []
+        for j_, tb in enumerate(ops):
+            cs = rng.sample(s.tables[tb], min(k_, len(s.tables[tb])))
+            while len(cs) < k_:
+                cs.append(cs[0])
+            arms.append("SELECT %s FROM %s" % (", ".join(q(c_) for c_ in cs), tb))
+            if j_ == 0:
+                cols_expected = list(cs)
+        text = (" %s " % rng.choice(["UNION", "UNION ALL"])).join(arms)
+    elif kind == "joinstar" and len(tabs) > 1:
+        # a bare star over two joined tables: the left table's columns first, whatever the kind of join
+        u = rng.choice([x for x in tabs if x != t])
+        jt = rng.choice(["JOIN", "LEFT JOIN", "RIGHT JOIN", "INNER JOIN", "RIGHT OUTER JOIN", "LEFT OUTER JOIN"])
+        both = cols + s.tables[u]
+        exp = []
+        for tb in (t, u):
+            for c_ in s.tables[tb]:
+                exp.append(("%s.%s" % (tb, bq(c_, reserved))) if both.count(c_) > 1 else bq(c_, reserved))
+        text = "SELECT * FROM %s %s %s ON %s.id = %s.id" % (t, jt, u, t, u)
+        star = "SELECT %s FROM %s %s %s ON %s.id = %s.id" % (", ".join(exp), t, jt, u, t, u)
+    elif kind in ("join", "derived", "chain", "joinstar"):
+        if kind == "joinstar":
+            kind = "join"
         others = [x for x in tabs if x != t]
         u = rng.choice(others)
         if kind == "join":
@@ -124,7 +151,7 @@ def gen_case(rng, reserved):
     cmd = ":many" if text.startswith("SELECT") else ":exec"
     src = "%s name: Q %s%s\n%s;\n" % (rng.choice(["--", "--", "/*", "#"]), cmd, "", text)
     src = src.replace("/* name: Q %s\n" % cmd, "/* name: Q %s */\n" % cmd)
-    return {"schema": s.sql, "queries": src, "marks": marks, "star": star, "text": text, "kind": kind}
+    return {"schema": s.sql, "queries": src, "marks": marks, "star": star, "text": text, "kind": kind, "cols": cols_expected}
 
 
 def lexemes(sql):
@@ -174,7 +201,15 @@ def mysql_subcheck(rep, prop, seed, n):
             rep.violation("a valid MySQL statement is rejected: %s" % str(r.get("errs"))[:160], replay)
             continue
         q = r["queries"][0]
-        if prop == "C03":
+        if prop == "C02":
+            if c.get("cols") is not None and [x["name"] for x in q["columns"]] != c["cols"]:
+                rep.violation("MySQL: the result columns of a set operation are %s, its first operand returns %s" % ([x["name"] for x in q["columns"]], c["cols"]), dict(replay, expected=c["cols"]))
+        elif prop == "C06":
+            # every ? is typed and named after the column it stands next to (in text order)
+            got = [(p["column"] or {}).get("name") for p in sorted(q["params"], key=lambda p: p["number"])]
+            if got != c["marks"]:
+                rep.violation("MySQL: the parameters are typed / named after columns %s, the `?` marks stand next to %s" % (got, c["marks"]), dict(replay, expected=c["marks"]))
+        elif prop == "C03":
             got = [(p["number"], (p["column"] or {}).get("name")) for p in sorted(q["params"], key=lambda p: p["number"])]
             want = list(enumerate(c["marks"], 1))
             nmarks = q["sql"].count("?") - sum(l.count("?") for l in re.findall(r"'(?:[^']|'')*'", q["sql"]))
